@@ -430,6 +430,8 @@ pub fn suite_ts(t: &mut Tracer, tier: Tier, seed: u64) {
         ("alias16", gen::frame(0x1_0004, b"")),
         ("alias8", gen::frame(0x104, &[0x01, 0x00])),
         ("over", gen::frame_declared(0, 4097, b"xx")),
+        ("unk_over", gen::frame_declared(0x0f, 4097, &gen::frame(0, b"smuggled"))),
+        ("unk_over2", gen::frame_declared(0x0d, 70_000, &gen::frame(4, &[0x08, 0x01]))),
         ("over4", gen::frame_declared(4, 1 << 20, b"")),
         ("trunc", gen::frame_declared(0, 5, b"ab")),
         ("trunc1", vec![0x40]),
